@@ -186,9 +186,8 @@ theorem startSelf_keeps {E : Engine} (hE : EngineKeeps E) (w0 : World) (d : Defe
   generalize hb : (sf0.isGenerated && readStamp w t != .missing &&
       (sf0.isOverride || detectOverride (sf0.stamp.getD .missing) (readStamp w t))) = b
   have hA : ∃ sf w1, (if b = true then
-        (if (!sf0.isOverride) = true then setOverride (ev w (.warnOverride t)) t sf0 cx.runid else sf0,
-          setRec (ev w (.warnOverride t)) t (if (!sf0.isOverride) = true then
-            setOverride (ev w (.warnOverride t)) t sf0 cx.runid else sf0))
+        (setOverride (ev w (.warnOverride t)) t sf0 cx.runid,
+          setRec (ev w (.warnOverride t)) t (setOverride (ev w (.warnOverride t)) t sf0 cx.runid))
       else (sf0, w)) = (sf, w1) ∧ Keeps w0 w1 := by
     cases b
     · exact ⟨_, _, rfl, h⟩
